@@ -277,7 +277,8 @@ Definition normalize_distribution (be : backend) (F P T D : nat) (per_point : bo
 Definition focus_np (F P T D : nat) (m c : tensor bool) : result (tensor bool * tensor bool) :=
   if F * P * T =? 0 then Err Value else
   if D <? 2 then Err Type_ else
-  if ex_lt D (fun d => all_lt F (fun f => all_lt P (fun p => all_lt T (fun t => get4 m f p t d)))) then Err Type_ else
+  (* PoseHeaderDimensions(width, height, depth=0, *args) applies math.ceil to the first three extents only *)
+  if ex_lt (Nat.min D 3) (fun d => all_lt F (fun f => all_lt P (fun p => all_lt T (fun t => get4 m f p t d)))) then Err Type_ else
   Ok (m, c).
 
 (* Pose.__getattr__ (pose.py:319-383) *)
